@@ -168,6 +168,30 @@ def regenerate():
         else:
             with open(stamp, "w") as fh:
                 fh.write(h.hexdigest())
+    # type-checked mutation facts (tools/mutscan, go/packages; C19): ~2 s, re-run when the Go sources or the tool changed
+    with open(os.path.join(VERIF, "tools/mutscan/main.go"), "rb") as fh:
+        h.update(fh.read())
+    stamp = os.path.join(BUILD, "mutscan.stamp")
+    target = os.path.join(LEAN, "Gv/Gen/MutFactsT.lean")
+    old = open(stamp).read() if os.path.exists(stamp) else ""
+    if old != h.hexdigest() or not os.path.exists(target):
+        ms = os.path.join(BUILD, "mutscan")
+        rc, out2 = run(["go", "build", "-o", ms, "."], cwd=os.path.join(VERIF, "tools/mutscan"), env=goenv())
+        if rc != 0:
+            return False, "mutscan build failed:\n" + out2, time.time() - t0
+        rc, out2 = run([ms, REPO, os.path.join(LEAN, "Gv/Gen")], env=goenv())
+        if rc != 0:
+            # only the modules that need the type-checked mutation facts (C19) break
+            if os.path.exists(stamp):
+                os.remove(stamp)
+            msg = out2[-400:].replace('"', "'").replace("\n", " ")
+            with open(target, "w") as fh:
+                fh.write("-- GENERATED by tools/mutscan: SCAN FAILED on the repository working tree.\n"
+                         "example : \"tools/mutscan failed: %s\" = \"\" := by decide\n" % msg)
+            out += "\nEXTRACT-FAIL stage=mutscan files=MutFactsT.lean reason=" + msg
+        else:
+            with open(stamp, "w") as fh:
+                fh.write(h.hexdigest())
     return True, out, time.time() - t0
 
 
